@@ -521,3 +521,71 @@ def distribution(cases_, results):
                 v = _crit(c['mode'], b['vals'][e * T:(e + 1) * T])
                 d['epochs_at_threshold' if v == th else ('epochs_below' if v < th else 'epochs_above')] += 1
     return d
+
+
+# =========================================================================== translator tie (coq/gen/RejectGen.v)
+# The coroutine reject_epochs itself - set-up, refusals, accept mask, data[mask], the two callbacks - and the PipelineData
+# properties n_channels / n_epochs are REGENERATED from the source under test on every run (translate/pyreject2coq.py),
+# and coq/Reject/ProofsTie.v proves the generated definitions equal to the model of coq/Reject/Model.v on the model's domain
+# (C17_source_* in coq/Props/C17.v).
+GEN = 'gen/RejectGen.v'
+MODES['other'] = 'neither of the two'          # self-test only: a mode string outside the table (UnboundLocalError)
+TRUSTED += ['translate/pyreject2coq.py (fail-closed AST translator of the coroutine psiaudio.pipeline.reject_epochs - set-up and loop '
+            'body, statement by statement - and of PipelineData.n_channels / n_epochs to coq/gen/RejectGen.v; it pins: the signature '
+            '`reject_epochs(reject_threshold, mode, status_cb, valid_target)` and the auto-start @coroutine decorator by its text, '
+            '`data = (yield)` as the first statement of `while True:`, the table of locals with their types, the strings '
+            "'absolute value' -> MAbs and 'amplitude' -> MPtp, `np.asarray(data, dtype=np.double)` as the exact 3-D sample "
+            'array of the batch, raise <Exception>(message) -> the exception class only, and it DROPS by its exact text '
+            "`if isinstance(valid_data, PipelineData): valid_data.add_metadata('reject_threshold', th)` (metadata entries are "
+            'identities in the model; the oracle checks the added entry); docstrings and comments are ignored; self-tested on every '
+            'run: reject_epochs_run is evaluated by coqc (vm_compute) against the real coroutine, send by send, on ~190 histories '
+            'incl. refused batches, dead coroutines, a callable threshold, no status callback and an unknown mode string)',
+            'the Python / NumPy primitives of coq/Reject/NumpyPrims.v as modelled (exercised by that self-test, not proved): the '
+            'exception monad ret / raise / bind, py_bound (a name bound on some paths only), py_str_eq, py_callable, ThLambda / ThSame / '
+            'py_call0 (the threshold callback and its own state), py_is_none, py_item / np_shape_at / pd_shape_at (tuple index, '
+            'negative wraps, out of range raises), np_ndim / pd_ndim, py_len / py_len_fwd, np_asarray_double, np_abs, np_max_last / '
+            'np_ptp_last (row_max / row_min over a non-empty time axis), np_lt_s, np_col0 (a[:, 0]), np_select / py_getitem_mask '
+            '(boolean selection of the epochs AND of the metadata entries of an annotated batch; s0, fs, channel kept), py_call_cb, '
+            'py_status, coroutine_run (an exception ends the generator, later sends raise StopIteration)']
+ASSUMPTIONS += ['translator tie: generated = model is proved on the domain `dom` (a good batch, or a refused batch with 1..3 dimensions '
+                'if annotated); C17_source_good_needed_refuted / C17_source_dims_needed_refuted show both halves are needed: the '
+                "source's checks let a 4-D annotated array with shape[-2] == 1 through (it fails later with IndexError), which the "
+                'model - limited to the 1..3 dimensions of PData/Model.v - refuses with ValueError']
+
+
+def translate(repo):
+    """Regenerate coq/gen/RejectGen.v from <repo>/psiaudio/pipeline.py and self-test it.  A source the translator cannot
+    digest, a generated file that does not type-check or a failed self-test raise: the driver reports a broken tie."""
+    import os
+    import random
+    import vlib
+    from translate import pyreject2coq
+    path = os.path.join(vlib.COQ, GEN)
+    try:
+        text, info = pyreject2coq.translate(repo)
+    except pyreject2coq.Gap as e:
+        msg = ''.join(ch if ch.isalnum() or ch in " _.,:;()[]{}=+-*/<>'`" else ' ' for ch in str(e))
+        msg = msg.replace('(*', '( *').replace('*)', '* )')[:400]
+        with open(path, 'w') as f:          # deliberately ill-typed: whoever builds it sees the reason
+            f.write(f'(* GENERATED by harness/C17.py translate(): translate/pyreject2coq.py could not digest\n   {repo}/psiaudio/pipeline.py *)\n'
+                    'From Coq Require Import ZArith String.\n' + f'Definition translator_gap : Z :=\n  "{msg}"%string.\n')
+        raise
+    with open(path, 'w') as f:              # always rewritten: always re-checked
+        f.write(text)
+    rc, out = vlib.coq_build('gen/RejectGen.vo')
+    if rc != 0:
+        raise pyreject2coq.Gap('the generated file does not type-check: ' + out[-800:])
+    import psiaudio.pipeline as pl
+    if os.path.realpath(pl.__file__) != os.path.realpath(os.path.join(repo, 'psiaudio', 'pipeline.py')):
+        raise vlib.MachineryError(f'psiaudio.pipeline is {pl.__file__}, not the translated source under {repo}')
+    import sys
+    terms = pyreject2coq.selftest_terms(sys.modules[__name__], random.Random(11))
+    try:
+        failing = vlib.run_cases(PROP, ['PData.Model', 'Reject.Model', 'Reject.NumpyPrims', 'gen.RejectGen'], terms, tag='tieself')
+    except vlib.MachineryError as e:
+        raise pyreject2coq.Gap('self-test could not be evaluated: ' + str(e)[-600:])
+    if failing:
+        raise pyreject2coq.Gap(f'self-test: the generated definitions disagree with the real coroutine on {len(failing)} of '
+                               f'{len(terms)} histories, first: {terms[failing[0]][:600]}')
+    info.update(gen_files=[GEN], primitives=pyreject2coq.PRIMITIVES, selftest={'histories': len(terms), 'failing': 0})
+    return info
